@@ -1,7 +1,7 @@
 (* C19  asyncio adapter stays consistent under any event-loop schedule (model level; see docs/C19.md).
    fx = the checked tree has the repair of finding F4 (transmit() drains the event queue after sending); the
    harness probes it on the running code.  The adapter theorems hold for both values. *)
-From AQ Require Import lib.Base model.Adapter model.Router proofs.AdapterProofs proofs.RouterProofs.
+From AQ Require Import lib.Base model.Adapter model.Router model.ServerComp proofs.AdapterProofs proofs.RouterProofs proofs.ServerCompProofs.
 
 (* waiter_exactly_once, part 1: for every sequence of callbacks, API calls and event lists, no step ever
    resolves a future twice (set_result/set_exception never raises InvalidStateError). *)
@@ -122,3 +122,41 @@ Theorem retry_state_only_for_valid_token :
   d_token d <> 0 /\ exists o r, d_token d = mk (d_addr d) o r.
 Proof. exact retry_state_only_for_valid_token_l. Qed.
 Print Assumptions retry_state_only_for_valid_token.
+
+(* ---- the composition QuicServer + its protocols (coq/model/ServerComp.v), finding F4 and its repair ---- *)
+
+(* announced_cid_routable (tree WITH the repair, fx = true): in every reachable state of the composition, when a
+   step that runs transmit() of protocol p (datagram_received, _handle_timer, the deferred transmit, transmit(),
+   close(), ping()) returns normally, every connection ID p has put into a NEW_CONNECTION_ID frame handed to the
+   transport -- not seen retired by the server, p not terminated, server not closed -- is routed to p.
+   sfresh: cids named by ConnectionIdIssued events / registered at creation do not collide with cids announced by
+   or waiting in ANOTHER protocol (os.urandom; example sfresh_example in ServerCompProofs.v). *)
+Theorem announced_cid_routable : forall ops o out s',
+  sfresh true sst_init (ops ++ [o]) ->
+  let s := srun true sst_init ops in
+  sstep true s o = (None, out, s') -> s_closed s' = false ->
+  forall p, transmitter s o = Some p ->
+  forall c, In (c, p) (s_ann s') -> t_get c (s_tbl s') = Some p.
+Proof. exact announced_cid_routable_l. Qed.
+Print Assumptions announced_cid_routable.
+
+(* both trees: an announced connection ID is routed, or its ConnectionIdIssued event is still waiting inside the
+   protocol's connection (without the repair that is where it stays until the next callback: F4; with the repair
+   only after a handler raised) *)
+Theorem announced_cid_routed_or_queued : forall fx ops, sfresh fx sst_init ops ->
+  let s := srun fx sst_init ops in
+  s_closed s = false ->
+  forall c p, In (c, p) (s_ann s) ->
+    t_get c (s_tbl s) = Some p \/ exists a, p_get p (s_prots s) = Some a /\ In c (issued_cids (evq a)).
+Proof. exact announced_cid_routed_or_queued_l. Qed.
+Print Assumptions announced_cid_routed_or_queued.
+
+(* F4 at model level: without the repair announced_cid_routable fails on the first flight of a connection
+   (protocol 0 announces cid 7, its transmit() returns, 7 is not routed); same trace with the repair: routed *)
+Theorem announced_cid_unroutable_without_repair :
+  sfresh false sst_init f4_trace /\
+  let s := srun false sst_init f4_trace in
+  s_closed s = false /\ In (7, 0) (s_ann s) /\ t_get 7 (s_tbl s) = None /\
+  t_get 7 (s_tbl (srun true sst_init f4_trace)) = Some 0.
+Proof. exact announced_cid_unroutable_without_repair_l. Qed.
+Print Assumptions announced_cid_unroutable_without_repair.
